@@ -10,12 +10,13 @@ import (
 )
 
 func init() {
-	Explanations["C15"] = "Decides structural necessary conditions of 'accounts are a conserved ledger and service is paid before delivery' in the rhp.Server handlers: (R1) every Sectors.ReadSector/StoreSector call lies on the success edge of Contractor.DebitAccount for the request token's account and a cost computed by the request's (validated, see C08.R6) price table; (R2) where a handler checks existence (read, verify) the debit follows the positive existence test; (R3) the amount from which the fund/replenish revision is built is an Add-fold over exactly the deposit list handed to the atomic Credit*WithContract sink (same slice, or the element appended to it in the same loop iteration), and fund/replenish use only those atomic sinks; (R4) AttachPools/DetachPools are reached only through the natural exit of a loop that calls ValidSignature(host key) on every element of the very slice handed to the sink; (R5) a handler that derives deposits from a balance snapshot writes a non-zero amount only on the negative edge of a membership test in a map keyed by the account, and records the key on every iteration (top-up once per distinct key). NOT decided: non-negativity and pool drain order inside the Contractor implementation, exact prices."
+	Explanations["C15"] = "Decides structural necessary conditions of 'accounts are a conserved ledger and service is paid before delivery' in the rhp.Server handlers: (R1) every Sectors.ReadSector/StoreSector call lies on the success edge of Contractor.DebitAccount for the request token's account and a cost computed by the request's (validated, see C08.R6) price table; (R2) where a handler checks existence (read, verify) the debit follows the positive existence test; (R3) the amount from which the fund/replenish revision is built is an Add-fold over exactly the deposit list handed to the atomic Credit*WithContract sink (same slice, or the element appended to it in the same loop iteration), and fund/replenish use only those atomic sinks; (R4) AttachPools/DetachPools are reached only through the natural exit of a loop that calls ValidSignature(host key) on every element of the very slice handed to the sink; (R5) a handler that derives deposits from a balance snapshot writes a non-zero amount only on the negative edge of a membership test in a map keyed by the account, and records the key on every iteration (top-up once per distinct key); (R6) in the reference Contractor (package testutil) and the server, a scan-then-append insertion into a keyed list compares the list's elements with the very value it appends (pool attachment is idempotent, so a pool is never drawable twice). NOT decided: non-negativity and pool drain order inside the Contractor implementation, exact prices."
 
 	register(&Rule{ID: "C15.R1", Prop: "C15", Floor: 3, Doc: "service (sector read/store) only on the success edge of the debit for the token's account at the priced cost", Run: c15r1})
 	register(&Rule{ID: "C15.R2", Prop: "C15", Floor: 2, Doc: "existence check precedes the debit", Run: c15r2})
 	register(&Rule{ID: "C15.R3", Prop: "C15", Floor: 3, Doc: "credited deposits and revision amount are the same fold; only atomic credit sinks are used", Run: c15r3})
 	register(&Rule{ID: "C15.R4", Prop: "C15", Floor: 2, Doc: "pool attach/detach only after every entry's signature was verified against the host key", Run: c15r4})
+	register(&Rule{ID: "C15.R6", Prop: "C15", Floor: 1, Doc: "idempotent attachment: the membership scan compares with the value that is inserted", Run: c15r6})
 	register(&Rule{ID: "C15.R5", Prop: "C15", Floor: 2, Doc: "replenish tops up each distinct key once", Run: c15r5})
 }
 
@@ -470,4 +471,64 @@ func rejectsDuplicates(c *Ctx, h *hostAPI, f *ir.Func, account *types.Named) boo
 		}
 	}
 	return false
+}
+
+// c15r6: idempotent keyed-list insertion — where a value is appended to a keyed list only if a scan of that
+// list did not find it, the scan must compare the list's elements with the very value that is appended.
+func c15r6(c *Ctx) {
+	n := 0
+	for _, pkg := range []string{"testutil", "rhp"} {
+		for _, f := range c.P.PkgFuncs(pkg) {
+			ir.Walk(f.Body, false, func(x ast.Node) {
+				as, ok := x.(*ast.AssignStmt)
+				if !ok || len(as.Lhs) != 1 || len(as.Rhs) != 1 {
+					return
+				}
+				lhs, ok := ast.Unparen(as.Lhs[0]).(*ast.IndexExpr)
+				if !ok {
+					return
+				}
+				ac, ok := ast.Unparen(as.Rhs[0]).(*ast.CallExpr)
+				if !ok || len(ac.Args) != 2 {
+					return
+				}
+				if id, ok := ac.Fun.(*ast.Ident); !ok || id.Name != "append" || !sameLvalue(f, ac.Args[0], lhs) {
+					return
+				}
+				if _, isMap := f.TypeOf(lhs.X).Underlying().(*types.Map); !isMap {
+					return
+				}
+				val := ac.Args[1]
+				// a scan over the same keyed list in the same function
+				ir.Walk(f.Body, false, func(y ast.Node) {
+					rs, ok := y.(*ast.RangeStmt)
+					if !ok || rs.Value == nil || !sameLvalue(f, rs.X, lhs) {
+						return
+					}
+					elem := f.ObjOf(rs.Value)
+					ir.Walk(rs.Body, false, func(z ast.Node) {
+						be, ok := z.(*ast.BinaryExpr)
+						if !ok || be.Op.String() != "==" {
+							return
+						}
+						var other ast.Expr
+						if f.ObjOf(be.X) == elem {
+							other = be.Y
+						} else if f.ObjOf(be.Y) == elem {
+							other = be.X
+						} else {
+							return
+						}
+						n++
+						c.VisitGraph(f)
+						ob := c.Ob(f, "membership-scan-matches-insertion", be.Pos())
+						ob.Check(sameLvalue(f, other, val), nil, "the list %s is scanned for %s but %s is what gets appended when the scan finds nothing: the insertion is not idempotent, so an entry attached twice is counted twice (e.g. a pool's balance is drawable twice and service is delivered underpaid)", ir.ExprString(lhs), ir.ExprString(other), ir.ExprString(val))
+					})
+				})
+			})
+		}
+	}
+	if n == 0 {
+		ir.Fail("no scan-then-append idiom found (reference contractor's pool attachments)")
+	}
 }
